@@ -4,7 +4,7 @@ blocks) -- run against the crate on the same file.
 
 For every run of the crate (harness `crt`: BufReader capacity through hook H4, slice or chunked source) the extracted
 `ccr_file` (OCaml command `ccr`) reads the same bytes from the same kind of source with
-  * the value decoder `cc_vdec` for the schema text found in the header (Python's json -> JSON AST -> the model's Parse.parse_schema),
+  * the value decoder `cc_vdec` for the schema text found in the header (the text itself, read by the model's own JSON reader JsonRead.json_of_text, then Parse.parse_schema),
   * the codec named in the header (as Container.header_meta reads it),
   * a REPLAY streaming decoder (model/ContainerReplay.v): the reads hook H4 recorded for each block the crate entered --
     bytes produced (or Err) and compressed bytes consumed (difference of the Take limits) -- where the BYTES of each read are
@@ -123,10 +123,6 @@ def chunk_key(mode, off):
         if off < start + p:
             return "(%d %d)" % (start + p - off, len(plan) - 1 - i)
         start += p
-
-def text_to_ast(text):
-    import p_C19
-    return p_C19.text_to_ast(text)
 
 # ---------------------------------------------------------------- the crate's run
 def parse_crt(res):
@@ -270,24 +266,13 @@ def compare(jobs, policies=None, want_notes=None):
     mlines, mmeta = [], []
     for j in prepared:
         t, w, f = j["t"], j["w"], j["file"]
+        # the schema of the header reaches the model as the TEXT found in the file, read by the model's own reader
+        # (`(text x..)`: JsonRead.json_of_text, then Parse.parse_schema); a text the reader rejects is a schema error, as in the crate
         if t.get("open_err"):
-            ast = None
-            if w is not None and w["json"] is not None:
-                try:
-                    ast = text_to_ast(w["json"].decode("utf-8"))
-                except UnicodeDecodeError:
-                    ast = None
-            src = "(json %s)" % __import__("docgen").to_sx(ast) if ast is not None else "(json null)"
+            src = "(text %s)" % C.hx(w["json"]) if w is not None and w["json"] is not None else "(json null)"
             items = []
         else:
-            try:
-                ast = text_to_ast(t["json"].decode("utf-8"))
-            except UnicodeDecodeError:
-                ast = None
-            if ast is None:
-                skip("schema text Python's json does not read")
-                continue
-            src = "(json %s)" % __import__("docgen").to_sx(ast)
+            src = "(text %s)" % C.hx(t["json"])
             items = []
             fam = w["codec"] if w is not None else None
             if w is None:
